@@ -34,6 +34,9 @@ type effect struct {
 	// for collectThenSort: "" when the comparator is a total order on the collected elements
 	// themselves, otherwise the fields it compares (antisymmetry must then be reviewed)
 	sortKey string
+	// for keyedWrite through a key derived from the range key: "dst[f(key)] f=<fn> body=<hash>";
+	// S_keyed_write needs f injective on the ranged keys, which has to be reviewed
+	keyDeriv string
 }
 
 type effects []effect
@@ -56,6 +59,17 @@ func (es effects) sortKeys() []string {
 	for _, e := range es {
 		if e.sortKey != "" {
 			out = append(out, e.sortKey)
+		}
+	}
+	sort.Strings(out)
+	return out
+}
+
+func (es effects) keyDerivs() []string {
+	out := []string{}
+	for _, e := range es {
+		if e.keyDeriv != "" {
+			out = append(out, e.keyDeriv)
 		}
 	}
 	sort.Strings(out)
@@ -501,6 +515,72 @@ func (c *classifier) mentionsLoopVars(ctx *loopCtx, e ast.Expr) bool {
 	return found
 }
 
+// keyDerivation recognises an index that is one function application to the range key, either
+// inline (`dst[f(k)]`) or through a local defined once in the body (`x, err := f(k)`; `dst[x]`).
+// Result: "f(key)] f=<pkg.fn> body=<hash of f's declaration without comments | ->" or "".
+func (c *classifier) keyDerivation(ctx *loopCtx, idx ast.Expr) string {
+	idx = unparen(idx)
+	var call *ast.CallExpr
+	switch v := idx.(type) {
+	case *ast.CallExpr:
+		call = v
+	case *ast.Ident:
+		o := c.info().Uses[v]
+		if o == nil || !c.isLocal(ctx, o) {
+			return ""
+		}
+		defs := 0
+		ast.Inspect(ctx.loop.Body, func(nd ast.Node) bool {
+			as, ok := nd.(*ast.AssignStmt)
+			if !ok {
+				return true
+			}
+			for _, l := range as.Lhs {
+				if id, ok := l.(*ast.Ident); ok && (c.info().Defs[id] == o || c.info().Uses[id] == o) {
+					defs++
+					if len(as.Rhs) == 1 {
+						call, _ = unparen(as.Rhs[0]).(*ast.CallExpr)
+					}
+				}
+			}
+			return true
+		})
+		if defs != 1 {
+			return ""
+		}
+	}
+	if call == nil {
+		return ""
+	}
+	// exactly the range key as the only loop-dependent argument
+	usesKey := false
+	for _, a := range call.Args {
+		if c.isKey(ctx, a) {
+			usesKey = true
+		} else if c.mentionsLoopVars(ctx, a) {
+			return ""
+		}
+	}
+	if !usesKey {
+		return ""
+	}
+	obj, _ := c.calleeObj(call)
+	f, ok := obj.(*types.Func)
+	if !ok || f.Pkg() == nil {
+		return ""
+	}
+	_, n := funcKey(f)
+	name := shortPkg(f.Pkg().Path()) + "." + n
+	hash := "-"
+	if inModule(f) {
+		k, _ := funcKey(f)
+		if fi := c.x.fns[k]; fi != nil {
+			hash = c.x.declHash(fi.decl)
+		}
+	}
+	return fmt.Sprintf("%s(key)] body=%s", name, hash)
+}
+
 func (c *classifier) mentionsObj(e ast.Expr, o types.Object) bool {
 	found := false
 	ast.Inspect(e, func(nd ast.Node) bool {
@@ -617,7 +697,12 @@ func (c *classifier) assignTo(ctx *loopCtx, lhs ast.Expr, rhs ast.Expr, tok toke
 					c.add(ctx, effect{tag: "keyedWrite", target: dst, pos: pos})
 				}
 			case c.mentionsLoopVars(ctx, ix.Index):
-				c.add(ctx, effect{tag: "keyedWriteDerived", target: dst, detail: "index " + types.ExprString(ix.Index), pos: pos})
+				if d := c.keyDerivation(ctx, ix.Index); d != "" && !ctx.ordered {
+					// dst[f(k)] = …: a keyed write provided f is injective on the ranged keys
+					c.add(ctx, effect{tag: "keyedWrite", target: dst, detail: "key derived: " + d, keyDeriv: dst + "[" + d, pos: pos})
+				} else {
+					c.add(ctx, effect{tag: "keyedWriteDerived", target: dst, detail: "index " + types.ExprString(ix.Index), pos: pos})
+				}
 			default:
 				c.add(ctx, effect{tag: "lastWriteWins", target: target, detail: "index does not depend on the key", pos: pos})
 			}
